@@ -289,6 +289,18 @@ impl<'a> Gen<'a> {
                 let o2 = self.other_name("");
                 format!("{{{},{}/{}}}", esc(name), esc(&o), esc(&o2))
             },
+            8 if chars.len() >= 2 && chars.iter().all(|c| *c == chars[0]) && self.rng.chance(2, 3) => {
+                // a run of one character: repetition of that character with bounds around the count
+                let n = chars.len();
+                let c = esc(&chars[0].to_string());
+                match self.rng.below(5) {
+                    0 => format!("<{}:{}>", c, n),
+                    1 => format!("<{}:{},{}>", c, n, n + 1),
+                    2 => format!("<{}:{},{}>", c, n - 1, n),
+                    3 => format!("<{}:{},>", c, n),
+                    _ => format!("<{}:1,{}>", c, n + 1),
+                }
+            },
             8 => {
                 let (lo, hi) = (self.rng.range(0, 1), self.rng.range(1, 3));
                 match self.rng.below(3) {
